@@ -3,7 +3,7 @@
    clauses of the property statement, each for all operands / trees / environments. *)
 From Flocq Require Import Core BinarySingleNaN.
 Require Import ZArith NArith Bool List Arith Reals. Import ListNotations.
-Require Import F64 Dec Types Generic Lang LangLaws Spec SpecFacts FremFacts.
+Require Import F64 Dec Types Generic Lang LangLaws Spec SpecFacts FremFacts GenInterp InterpFacts.
 Notation ev E e := (fst (eval_t E e)).
 
 (* the language definition as rules (Spec.v: literals, variables, arrays and calls left to right stopping at the first failure, unary,
@@ -107,3 +107,21 @@ Proof. exact unary_error_propagates. Qed.
 Theorem C03_conditional_semantics : forall E c a b, ev E (ETer TernaryCondition c a b) = match ev E c with Ok cv => if as_bool cv then ev E a else ev E b | Er x => Er x end.
 Proof. exact conditional_semantics. Qed.
 Print Assumptions C03_boolean_results. Print Assumptions C03_div_truncates. Print Assumptions C03_undefined_right.
+
+(* ---- tie (a) for the interpreter core: the operator dispatch and the value operations of the model are the reading - first matching arm, in source order - of the
+   match tables regenerated on every run from fn unary / fn binary (interpreter.rs) and the operator impls, Ord, PartialEq and ordinal of Value (value.rs).
+   tab_* interpret the generated tables; the glossary mapping each right-hand-side text to an f64 / list operation (InterpFacts.v) is the trusted part. A changed arm
+   changes a table (an unknown text becomes GOther) and these theorems no longer check. *)
+Theorem C03_unary_is_the_table : forall o r, Some (un_combine o r) = tab_unary o r.
+Proof. exact un_combine_is_the_table. Qed.
+Theorem C03_binary_is_the_table : forall o rl rr, Some (bin_combine o rl rr) = tab_binary o rl rr.
+Proof. exact bin_combine_is_the_table. Qed.
+Theorem C03_value_ops_are_the_table : forall o lv rv, Some (binop o lv rv) = tab_inner o lv (Ok rv).
+Proof. exact binop_is_the_table. Qed.
+Theorem C03_order_is_the_table : forall a b, Some (vcmp a b) = tab_cmp a b.
+Proof. exact vcmp_is_the_table. Qed.
+Theorem C03_equality_is_the_table : forall a b, Some (veq a b) = tab_eq a b.
+Proof. exact veq_is_the_table. Qed.
+Theorem C03_small_bodies_as_modelled : gen_helpers_as_modelled = true /\ gen_ternary_as_modelled = true /\ gen_boolean_as_modelled = true /\ gen_get_values_as_modelled = true /\ gen_cmp_falls_back_on_ordinal = true.
+Proof. exact helpers_as_modelled. Qed.
+Print Assumptions C03_binary_is_the_table.
